@@ -341,6 +341,11 @@ def reconcile_rule(ctx, F):
                   'reconcile calls reconcile_path with wrong operands: %s' % '; '.join(why), term_loc(b, cb))
         # push iff act != Noop: the test is `act != Action::Noop` / `==`, or a `match` on the action itself
         pushes = fl.calls_to('std::vec::Vec::<T, A>::push')
+        # (several copies of the loop - one per base source, say - each have their own push: the one of this iteration)
+        heads_ = set(cfg.loops().keys())
+        near_ = cfg.reach(cb, cut_blocks=[h_ for h_ in heads_ if h_ != cb])
+        if any(pb in near_ for pb, _ in pushes):
+            pushes = [(pb, pt) for pb, pt in pushes if pb in near_]
         cmp_ok = False
         tests = []      # (edges on which act is Noop, edges on which it is not)
         for eb, et in fl.calls_to('std::cmp::PartialEq::ne', 'std::cmp::PartialEq::eq'):
